@@ -1682,7 +1682,15 @@ class DeleteMethod(Method):
         if_match = request.headers.get("If-Match", None)
         if if_match is not None and not etag_matches(if_match, current_etag):
             return Response(status=412, reason="Precondition Failed")
-        pr.delete_member(item_name, current_etag)
+        try:
+            pr.delete_member(item_name, current_etag)
+        except PreconditionFailure as e:
+            return _send_simple_dav_error(
+                request,
+                "412 Precondition Failed",
+                error=ET.Element(e.precondition),
+                description=e.description,
+            )
         return Response(status=204, reason="No Content")
 
 
